@@ -226,7 +226,9 @@ func emitTypedWith(cw *caseWriter, f, ty string, v interface{}, batchBack string
 //	imp \t C10 \t <format> \t <ty> \t <Dyn v> \t <ext> \t <ok <Dyn raw> | err <class> | panic …>
 func emitImp(cw *caseWriter, f, ty string, v interface{}) { emitImpFor(cw, "C10", f, ty, v) }
 
-func emitImpFor(cw *caseWriter, prop, f, ty string, v interface{}) { emitImpAfter(cw, prop, f, ty, nil, v) }
+func emitImpFor(cw *caseWriter, prop, f, ty string, v interface{}) {
+	emitImpAfter(cw, prop, f, ty, nil, v)
+}
 
 // emitSetCol: row-level STORE into a declared column: a row the template created, then Row.Set (or SetAtIndex) of v
 // under the column's name: the cell keeps its declaration and holds v converted to the raw type — or null when the
@@ -304,6 +306,82 @@ func emitImpAfterValue(cw *caseWriter, prop, f, ty, f2, ty2 string, held, v inte
 	cw.emit("imp "+prop+" "+f+" "+ty+" after Value "+f2+" "+ty2+" "+s, true, "imp", prop, f2, ty2, s, extStr(ext), impl)
 }
 
+// emitImpValue: a ready-made jsonline.Value (declared f2 / ty2, holding `held`) imported into a column declared
+// (f, ty) — by key, through Row.Import of a map, or through the cell — : by the API's contract the Value hands its
+// format, raw value and raw type over to the cell. What the CELL then declares and holds is observed (`decl=`).
+func emitImpValue(cw *caseWriter, prop, f, ty, f2, ty2 string, held interface{}, how int) {
+	t := jsonline.NewTemplate().With("c", formatByName[f], tySample[ty])
+	ext := map[string]string{}
+	var val jsonline.Value
+	impl := "-"
+	pan := guard(func() {
+		val = jsonline.NewValue(held, formatByName[f2], tySample[ty2])
+		extForValue(val.Raw(), ext)
+		row := t.CreateRowEmpty()
+		var err error
+		switch how % 3 {
+		case 0:
+			err = row.ImportAtKey("c", val)
+		case 1:
+			err = row.Import(map[string]interface{}{"c": val})
+		default:
+			cell, _ := row.GetValue("c")
+			err = cell.Import(val)
+		}
+		if err != nil {
+			impl = "err " + classify(err)
+			return
+		}
+		cell, _ := row.GetValue("c")
+		extForValue(cell.Raw(), ext)
+		impl = "ok " + dynStr(cell.Raw()) + " decl=" + formatName(cell.GetFormat()) + ":" + tyName(cell.GetRawType())
+	})
+	if pan != "" {
+		impl = "panic " + strings.ReplaceAll(strings.ReplaceAll(pan, "\t", " "), "\n", " ")
+	}
+	if val == nil {
+		return
+	}
+	cw.count("imp-value:" + f2 + ":" + strings.SplitN(impl, " ", 2)[0])
+	s := dynStr(val)
+	cw.emit("imp "+prop+" "+f+" "+ty+" <- Value "+s, true, "imp", prop, f, ty, s, extStr(ext), impl)
+}
+
+// emitImpVia: a JSON string handed to the CELL's own json.Unmarshaler (json.Unmarshal(data, cell)) — for a string this
+// is Import(the string), so the case is judged as an `imp` case.
+func emitImpVia(cw *caseWriter, prop, f, ty string, v string) {
+	t := jsonline.NewTemplate().With("c", formatByName[f], tySample[ty])
+	ext := map[string]string{}
+	extForText(v, ext)
+	impl := "-"
+	pan := guard(func() {
+		row := t.CreateRowEmpty()
+		cell, _ := row.GetValue("c")
+		data, _ := json.Marshal(v)
+		if err := json.Unmarshal(data, cell); err != nil {
+			impl = "err " + classify(err)
+			return
+		}
+		got, _ := row.Get("c")
+		extForValue(got, ext)
+		impl = "ok " + dynStr(got)
+		if prop == "C11" {
+			cv, _ := row.GetValue("c")
+			if ex, eerr := cv.Export(); eerr == nil {
+				impl += " => " + dynStr(ex)
+			} else {
+				impl += " => ERR"
+			}
+		}
+	})
+	if pan != "" {
+		impl = "panic " + strings.ReplaceAll(strings.ReplaceAll(pan, "\t", " "), "\n", " ")
+	}
+	cw.count("imp-via-cell:" + strings.SplitN(impl, " ", 2)[0])
+	s := dynStr(v)
+	cw.emit("imp "+prop+" "+f+" "+ty+" via the cell's UnmarshalJSON "+s, true, "imp", prop, f, ty, s, extStr(ext), impl)
+}
+
 // emitImpAfter: the same import into a cell (and row) that has just REJECTED something else (before, when not
 // nil): a refused value leaves the cell as it was — declared format and raw type included.
 func emitImpAfter(cw *caseWriter, prop, f, ty string, before []interface{}, v interface{}) {
@@ -379,7 +457,7 @@ func emitImpAfter(cw *caseWriter, prop, f, ty string, before []interface{}, v in
 // and Go values handed through the API.
 func impValues() []interface{} {
 	return []interface{}{nil, true, false, json.Number("0"), json.Number("1"), json.Number("-1"), json.Number("300"), json.Number("1.5"), json.Number("1e40"),
-		json.Number("9223372036854775808"), json.Number("1632518460"), "", "abc", "12", "-7", "1.5", "true", "AQ==", "AAAAAAAAAAA=", "AQIDBA==", "2021-09-24",
+		json.Number("9223372036854775808"), json.Number("1632518460"), "", "00", "-00", "+00", "000", json.Number("9007199254740993"), "abc", "12", "-7", "1.5", "true", "AQ==", "AAAAAAAAAAA=", "AQIDBA==", "2021-09-24",
 		"2021-09-24T21:21:00Z", "2021-09-24T21:21:00+05:30", []interface{}{json.Number("1")}, []interface{}{}, map[string]interface{}{"a": json.Number("1")},
 		int(7), int8(-3), uint16(65535), int64(math.MinInt64), uint64(math.MaxUint64), float64(1.5), float32(2), float64(1e300), math.NaN(), []byte{1}, []byte{1, 2, 3, 4, 5, 6, 7, 8},
 		[]byte("12"), time.Unix(1632518460, 0).UTC(), struct{ A int }{1}, (*int)(nil),
@@ -530,7 +608,7 @@ func selfReadableCols(r *rng, depth int) []colDesc {
 	return cols
 }
 
-var c05Values = []string{`null`, `true`, `false`, `0`, `-0`, `-0.0`, `"-0.0"`, `-0e0`, `"-0"`, `-1e-400`, `1`, `-1`, `12`, `1.5`, `255`, `-129`, `65536`, `1e2`, `1632518460`, `253402214400`, `0.10`, `9223372036854775807`,
+var c05Values = []string{`null`, `true`, `false`, `0`, `-62135596800`, `"0001-01-01T00:00:00Z"`, `-0`, `-0.0`, `"-0.0"`, `-0e0`, `"-0"`, `-1e-400`, `1`, `-1`, `12`, `1.5`, `255`, `-129`, `65536`, `1e2`, `1632518460`, `253402214400`, `0.10`, `9223372036854775807`,
 	`""`, `"a"`, `"12"`, `"-1"`, `"1.5"`, `"true"`, `"2021-09-24"`, `"2021-09-24T21:21:00Z"`, `"2021-09-24T21:21:00+02:00"`, `"2021-09-24T21:21:00.5-03:30"`, `"2021-09-24T01:30:00+24:60"`, `"1632518460"`,
 	`"AQ=="`, `"AQAAAA=="`, `"AQAAAAAAAAA="`, `"aGVsbG8="`, `"aGVsbG9="`, `"MTI="`, `"é😀"`, `"\n\"\\"`, `[]`, `[1,{"q":1,"b":2}]`, `{"q":1,"b":2}`}
 
